@@ -74,5 +74,24 @@ package packet
 //@   at-call WriteRawBytes as f3: assert called(f2) && ref(arg1) == ref(l.Data) && len(arg1) == len(l.Data)
 //@   ensures called(f1) && called(f2) && called(f3)
 
+// Login start (the proxy builds it for the backend): name first; 1.19..1.19.2 the optional player key behind its presence
+// flag; 1.20.2+ the holder id unconditionally; 1.19.1..1.20.1 a presence flag and then the key's signature holder when the
+// key names one, OTHERWISE the packet's HolderID (the flag is true exactly when one of the two exists).
+//@ func (*ServerLogin).Encode
+//@   props C07
+//@   at-call WriteString as name: assert streq(arg1, s.Username) && len(s.Username) != 0
+//@   at-call SignatureHolder#1 as sh1
+//@   at-call SignatureHolder#2 as sh2
+//@   at-call WriteBool#1 as hasKey: assert called(name) && arg1 == (s.PlayerKey != nil)
+//@   at-call WritePlayerKey as key: assert called(hasKey) && s.PlayerKey != nil && arg1 == s.PlayerKey
+//@   at-call WriteUUID#1 as holder202: assert called(name) && arg1 == s.HolderID
+//@   at-call WriteBool#2 as hasId: assert [flag-iff-an-id-exists] called(name) && arg1 == ((s.PlayerKey != nil && res(sh1) != uuid.Nil) || s.HolderID != uuid.Nil)
+//@   at-call SignatureHolder#2 as sh2b: assert [holder-read-only-when-the-key-names-one] okPlayerKey
+//@   at-call WriteBool#2 as okdef: assert [the-key-names-a-holder-means-non-nil-key-with-non-zero-holder] okPlayerKey == (s.PlayerKey != nil && res(sh1) != uuid.Nil)
+//@   at-call WriteUUID#2 as id: assert [id-only-behind-a-true-flag] called(hasId) && arg(hasId, 1)
+//@   at-call WriteUUID#2 as id3: assert [key-holder-when-the-key-names-one] called(sh2) ==> arg1 == res(sh2) && okPlayerKey
+//@   at-call WriteUUID#2 as id4: assert [otherwise-the-packets-holder-id] !called(sh2) ==> arg1 == s.HolderID && !okPlayerKey
+//@   at-call WriteUUID#2 as id2: assert [the-holder-read-is-the-keys] called(sh2) ==> arg(sh2, 0) == s.PlayerKey
+
 // ---- C04: every packet type below the proto tree with Encode and Decode is checked as a pair -----------------------
 //@ codec-pairs go.minekube.com/gate/pkg/edition/java/proto ; props C04
